@@ -422,7 +422,116 @@ pub fn meta() -> CheckMeta {
         level: "exploration",
         rule: "differential run of FrameCodec against an independent slice-based reference codec: (a) header-only grid of command bytes x length values, (b) encode/decode round trips over 11 commands x boundary ids x boundary lengths, (b2) oversize payload attempts, (b3) several frames encoded one after the other into one buffer (optionally pre-filled) compared with the reference concatenation and decoded back, (c) frame concatenations fed cut at every single position / every pair (short streams) / random multi-cuts / 1-byte drip / around every header, comparing frames, consumed count and exact leftover after every feed, (d) arbitrary and header-shaped byte strings. A case is non-trivial+distinct by its (kind, parameters or leading bytes) hash when at least one frame completes (d) or always (a-c).".into(),
         assumptions: vec!["the 40-line reference codec encodes the protocol description correctly".into(), "ids beyond the boundary set and payload contents are sampled, not enumerated".into()],
-        floors: vec![("header_only_decodes", 30_000), ("roundtrips", 1000), ("frames_encoded_into_shared_buffers", 1000), ("fragmentations_checked", 3000), ("frames_decoded_from_arbitrary_strings", 1000)],
+        floors: vec![("header_only_decodes", 30_000), ("roundtrips", 1000), ("frames_encoded_into_shared_buffers", 1000), ("fragmentations_checked", 3000), ("frames_decoded_from_arbitrary_strings", 1000), ("in_session_fragmentations", 500)],
         exhaustive: false,
     }
+}
+
+// ---------------------------------------------------------------------------
+// the decoder where it is used: a real server Session is fed a frame stream in chosen pieces (each piece is one
+// transport read); what its stream hands to the consumer must be the payloads of exactly the frames sent
+
+/// returns None when the consumer got exactly the payload bytes followed by end of stream
+async fn in_session_case(sizes: &[usize], cuts: &[usize], seed: u64) -> Option<String> {
+    use crate::engine;
+    use crate::mempipe::PipeCfg;
+    use crate::prng::Pattern;
+    use std::time::Duration;
+    let mut rv = engine::raw_vs_server(PipeCfg::plain(), PipeCfg::plain(), engine::no_padding());
+    let pat = Pattern::new(seed, 1, 0);
+    let mut wire = Vec::new();
+    wire.extend_from_slice(&refcodec::encode(refcodec::SETTINGS, 0, &engine::settings_payload("x")));
+    wire.extend_from_slice(&refcodec::encode(refcodec::SYN, 1, &[]));
+    let mut off = 0u64;
+    for &n in sizes {
+        wire.extend_from_slice(&refcodec::encode(refcodec::PSH, 1, &pat.make(off, n)));
+        off += n as u64;
+    }
+    wire.extend_from_slice(&refcodec::encode(refcodec::FIN, 1, &[]));
+    let total = off;
+    // deliver piece by piece; one virtual millisecond between pieces lets the session consume each piece alone
+    let mut prev = 0usize;
+    let mut cuts: Vec<usize> = cuts.iter().copied().filter(|c| *c > 0 && *c < wire.len()).collect();
+    cuts.sort();
+    cuts.dedup();
+    cuts.push(wire.len());
+    for c in cuts {
+        if rv.peer.send_bytes(&wire[prev..c]).await.is_err() {
+            return Some("the session stopped accepting bytes".into());
+        }
+        prev = c;
+        tokio::time::sleep(Duration::from_millis(1)).await;
+    }
+    let st = match tokio::time::timeout(Duration::from_secs(5), rv.new_streams.recv()).await {
+        Ok(Some(st)) => st,
+        _ => return Some("the stream never appeared at the session".into()),
+    };
+    let mut got = 0u64;
+    let mut buf = vec![0u8; 70_000];
+    let mut rd = st.reader().lock().await;
+    loop {
+        match tokio::time::timeout(Duration::from_secs(5), rd.read(&mut buf)).await {
+            Ok(Ok(0)) => break,
+            Ok(Ok(n)) => {
+                if let Some(i) = pat.first_mismatch(got, &buf[..n]) {
+                    return Some(format!("byte at payload offset {} differs from the byte sent in the frames", got + i as u64));
+                }
+                got += n as u64;
+            }
+            Ok(Err(e)) => return Some(format!("read error after {got} of {total} payload bytes: {e}")),
+            Err(_) => return Some(format!("only {got} of {total} payload bytes arrived; the rest (and the end of the stream) never came")),
+        }
+    }
+    if got != total {
+        return Some(format!("{got} payload bytes arrived, {total} were sent in frames"));
+    }
+    None
+}
+
+pub fn run_in_session(ctx: Ctx, rep: &mut Report) {
+    let quick = ctx.tier == crate::report::Tier::Quick;
+    let mut rng = Rng::new(ctx.seed ^ 0x5E55);
+    // payload sizes around the read-buffer and frame limits
+    let pool: Vec<usize> = vec![1, 6, 7, 100, 4089, 8184, 8185, 8186, 8192, 8193, 9000, 10_000, 12_000, 16_376, 16_377, 16_384, 20_000, 32_768, 65_534, 65_535];
+    let n_lists = if quick { 24 } else { 400 };
+    for li in 0..n_lists {
+        let k = rng.usize(2, 5);
+        let sizes: Vec<usize> = (0..k).map(|_| *rng.pick(&pool)).collect();
+        // frame boundaries of the wire image
+        let mut bounds = Vec::new();
+        let mut at = 7 + crate::engine::settings_payload("x").len() + 7;
+        bounds.push(at);
+        for &n in &sizes {
+            at += 7 + n;
+            bounds.push(at);
+        }
+        // one cut a few bytes into the header that follows each boundary (a read ending inside a header), alone and
+        // together with a second cut elsewhere
+        for (bi, b) in bounds.iter().enumerate() {
+            for d in 0..=7usize {
+                let mut cuts = vec![b + d];
+                if (li + bi + d) % 3 == 0 {
+                    cuts.push(rng.usize(1, at));
+                }
+                crate::run::case_begin(&format!("C03 in-session list {li} boundary {bi} +{d}"));
+                let (sz, cu) = (sizes.clone(), cuts.clone());
+                let seed = ctx.seed ^ li as u64;
+                let r = crate::run::vt_block_on_deadline(std::time::Duration::from_secs(100_000), async move { in_session_case(&sz, &cu, seed).await });
+                let case = json!({"kind": "c03-in-session", "payload_sizes": sizes, "cuts": cuts, "seed": seed.to_string()});
+                rep.case(Some(hash_str(&case.to_string())));
+                rep.add("in_session_fragmentations", 1);
+                match r {
+                    None => rep.violate("codec", "in_session+read_ends_inside_a_header", "case_stuck", "the case did not finish".to_string(), case),
+                    Some(Some(p)) => rep.violate("codec", if d == 0 { "in_session+read_ends_at_a_frame_boundary" } else { "in_session+read_ends_inside_a_header" }, "frames_acted_on_differ_from_frames_sent", format!("server Session fed PSH frames with payload sizes {:?} in pieces cut at {:?} (frame boundaries at {:?}): {p}", sizes, cuts, bounds), case),
+                    Some(None) => {}
+                }
+                for p in crate::run::take_thread_panics() {
+                    if !crate::run::is_harness_panic(&p) {
+                        rep.violate("codec", "in_session", "panic", p, json!({}));
+                    }
+                }
+            }
+        }
+    }
+    crate::run::case_end();
 }
